@@ -163,10 +163,10 @@ struct TxGen<'g, 'a> {
     hostile: Vec<Vec<u8>>,
 }
 
-const GOOD_KEYS: [&str; 6] = ["action", "k", "x_", "é", " a ", "method"];
-const BAD_KEYS: [&str; 8] = ["", " ", "_x", " _x", "__", "\t", "\u{00a0}", "\u{3000}_a"];
+const GOOD_KEYS: [&str; 8] = ["action", "k", "x_", "é", " a ", "method", "contract_address", "a._b"];
+const BAD_KEYS: [&str; 11] = ["", " ", "_x", " _x", "__", "\t", "\u{00a0}", "\u{3000}_a", "_contract_address", " _contract_address ", "_"];
 const EDGE_KEYS: [&str; 6] = ["x_", " a ", "é", "a", "a_b", "\u{2003}b"];
-const GOOD_TYPES: [&str; 5] = ["ev", "transfer", "ab", " ab ", "é"];
+const GOOD_TYPES: [&str; 10] = ["ev", "transfer", "ab", " ab ", "é", "wasm", "wasm-x", "wasm-wasm", "execute", "\ttransfer "];
 const BAD_TYPES: [&str; 6] = ["", " ", "a", " a ", "\t\n", "x "];
 
 impl TxGen<'_, '_> {
@@ -216,16 +216,18 @@ impl TxGen<'_, '_> {
     }
 
     fn aref(&mut self) -> ARef {
-        match self.g.weighted(&[4, 4, 1]) {
+        match self.g.weighted(&[12, 12, 3, 2, 1]) {
             0 => ARef::User(self.g.below(N_USERS) as u8),
             1 => ARef::C(CRef(self.g.below(6) as u8)),
-            _ => ARef::Fresh(self.g.below(3) as u8),
+            2 => ARef::Fresh(self.g.below(3) as u8),
+            3 => ARef::Raw(self.g.below(3) as u8),
+            _ => ARef::Alien(self.g.below(N_USERS) as u8),
         }
     }
 
     fn cref(&mut self) -> CRef {
         if self.g.chance(1, 24) {
-            CRef(255)
+            CRef(if self.g.chance(1, 3) { 254 } else { 255 })
         } else {
             CRef(self.g.below(6) as u8)
         }
@@ -412,6 +414,11 @@ impl TxGen<'_, '_> {
     }
 
     fn sub(&mut self, depth: usize) -> Sub {
+        self.sub_with(depth, None)
+    }
+
+    /// a sub-message with generated id / payload / reply_on / reply node around a given message
+    fn sub_with(&mut self, depth: usize, given: Option<Msg>) -> Sub {
         let reply_on = match self.g.weighted(&self.p.reply_w) {
             0 => RO::Never,
             1 => RO::Success,
@@ -436,7 +443,10 @@ impl TxGen<'_, '_> {
                 payload.extend((0..len).map(|_| self.g.byte()));
             }
         }
-        let msg = self.msg(depth + 1);
+        let msg = match given {
+            Some(m) => m,
+            None => self.msg(depth + 1),
+        };
         let reply = if reply_on == RO::Never { usize::MAX } else { self.node(depth + 1, true) };
         Sub { id, payload: Hx(payload), reply_on, msg, reply }
     }
@@ -486,10 +496,10 @@ impl TxGen<'_, '_> {
 
     fn inst(&mut self, depth: usize) -> Msg {
         let node = self.node(depth, false);
-        let label = match self.g.weighted(&[12, 1, 1]) {
+        let label = match self.g.weighted(&[12, 1, 2]) {
             0 => format!("label{}", self.g.below(4)),
             1 => String::new(),
-            _ => "étiquette ✓".to_string(),
+            _ => self.g.pick(&["étiquette ✓", " padded ", "\ttab\n", " ", "\u{3000}", "x"]).to_string(),
         };
         let admin = match self.g.weighted(&[3, 4, 2]) {
             0 => None,
@@ -559,7 +569,33 @@ pub fn gen_history(g: &mut Gen, p: &Profile, contracts_hint: &[&str]) -> History
     let mut txs = vec![];
     let ntx = 2 + g.below(p.max_tx);
     let ninit = 2 + g.below(2);
+    // scenario template: the first contract becomes its own admin, then migrates itself from inside an
+    // execute, and the migrate entry point changes the registry entry of the same contract once more
+    // (clears / hands over the admin, or migrates again)
+    let self_admin = g.chance(if p.registry { 3 } else { 1 }, 16);
     for t in 0..(ninit + ntx) {
+        if self_admin && t == ninit {
+            txs.push(Tx { kind: TxKind::Exec { sender: ARef::User(0), msg: Msg::UpdateAdmin { c: CRef(0), admin: ARef::C(CRef(0)) }, via: Via::Execute }, nodes: vec![], qnodes: vec![] });
+            let mut tg = TxGen { staking, g, p, nodes: vec![], qnodes: vec![], budget: p.max_nodes, uniq: 0, txno: 200, wcount: 0, hostile: hostile.clone() };
+            let n2 = tg.node(p.max_depth, false);
+            let inner = match tg.g.below(3) {
+                0 => Msg::ClearAdmin { c: CRef(0) },
+                1 => Msg::UpdateAdmin { c: CRef(0), admin: ARef::User(1) },
+                _ => Msg::Migrate { c: CRef(0), code: KRef(tg.g.below(6) as u8), node: n2 },
+            };
+            let n1 = tg.node(p.max_depth, false);
+            let s1 = tg.sub_with(p.max_depth, Some(inner));
+            tg.nodes[n1].subs.push(s1);
+            tg.nodes[n1].fail = false;
+            let n0 = tg.node(p.max_depth, false);
+            let mig = Msg::Migrate { c: CRef(0), code: KRef(tg.g.below(6) as u8), node: n1 };
+            let s0 = tg.sub_with(p.max_depth, Some(mig));
+            tg.nodes[n0].subs.push(s0);
+            tg.nodes[n0].fail = false;
+            let kind = TxKind::Exec { sender: ARef::User(tg.g.below(N_USERS) as u8), msg: Msg::Exec { c: CRef(0), node: n0, funds: vec![] }, via: Via::Execute };
+            let TxGen { nodes, qnodes, .. } = tg;
+            txs.push(Tx { kind, nodes, qnodes });
+        }
         if g.exhausted() && t > ninit {
             break;
         }
@@ -569,6 +605,7 @@ pub fn gen_history(g: &mut Gen, p: &Profile, contracts_hint: &[&str]) -> History
             let node = tg.node(p.max_depth, false); // leaf-ish init node (no sub-messages)
             let code = if t < 2 { KRef(0) } else { KRef(tg.g.below(6) as u8) };
             let admin = match tg.g.below(3) {
+                _ if self_admin && t == 0 => Some(ARef::User(0)),
                 0 => None,
                 _ => Some(ARef::User(tg.g.below(N_USERS) as u8)),
             };
